@@ -121,7 +121,8 @@ type vChainRun struct {
 	ctx        *vReqCtx
 	drawn      []bool
 	withCancel bool
-	deep       int // the first `deep` handlers may call Next() twice, the others at most once
+	withSwap   bool // job parameter cancel=2: handlers may also replace the request's context
+	deep       int  // the first `deep` handlers may call Next() twice, the others at most once
 	share      *vChainRun
 	refBody    []byte // reference run: what must reach the client, in order
 }
@@ -151,7 +152,9 @@ func (r *vChainRun) beh(i int) vBehaviour {
 		}
 		if r.withCancel {
 			b.cancel = vx.Bool()
-			b.swap = vx.Bool()
+			if r.withSwap {
+				b.swap = vx.Bool()
+			}
 		}
 	}
 	return r.b[i]
@@ -257,7 +260,8 @@ func VH_C03_chain() {
 		impl.b = append(impl.b, vBehaviour{kind: kind})
 	}
 	impl.drawn = make([]bool, total)
-	impl.withCancel = vx.ParamInt("cancel") == 1
+	impl.withCancel = vx.ParamInt("cancel") >= 1
+	impl.withSwap = vx.ParamInt("cancel") == 2
 	impl.deep = vx.ParamInt("deep")
 	ref := &vChainRun{b: impl.b, drawn: impl.drawn, share: impl}
 
